@@ -107,7 +107,7 @@ fn draw_workload<M: Machine>() -> Workload {
         chunks.push(Chunk { id: i as u32, recs: [a, b], style: styles[srand(styles.len() as u64) as usize], ctor: srand(M::N_EMPTY as u64) as u8 });
     }
     let n_workers = 2 + srand(3) as usize;
-    Workload { chunks, n_workers, exact_data, knobs: json!({"family": tape::FAMILY_NAMES[family as usize % 10], "chunk_lens": lens, "workers": n_workers}) }
+    Workload { chunks, n_workers, exact_data, knobs: json!({"family": tape::FAMILY_NAMES[family as usize % 12], "chunk_lens": lens, "workers": n_workers}) }
 }
 
 /// operators whose first operand is the left one / the right one
